@@ -43,6 +43,7 @@ structure St where
   htlcSpends : Nat := 0
   templates : Nat := 0
   brarInputs : Nat := 0
+  watched : Nat := 0
   samples : Nat := 0
 
 def mismatch (s : St) (detail : String) : IO St := do
@@ -252,7 +253,9 @@ def step (s : St) (line : String) : IO St := do
         -- amounts cannot come from anywhere: only acceptable if nothing needed them
         return s
       return s
-    else monitor s "retribution-built" s!"v={kvS rest "v"} h={kvS rest "h"} mode={mode} noamt={kvN rest "noamt"} result={res}"
+    else
+      let cl := if mode.startsWith "stale" then "breach-recognised" else "retribution-built"
+      monitor s cl s!"v={kvS rest "v"} h={kvS rest "h"} mode={mode} noamt={kvN rest "noamt"} result={res}"
   | "cover" :: rest =>
     let s := { s with evals := s.evals + 1 }
     if kvS rest "claimed" == kvS rest "expect" && kvN rest "dup" == 0 && kvN rest "txid" == 1 then return s
@@ -273,6 +276,12 @@ def step (s : St) (line : String) : IO St := do
     -- a second-level output worth less than the fee cannot be swept (economics, not scripts)
     if res == "ok" || (res.splitOn "negative_value").length > 1 then return s
     else monitor s "retribution-built" s!"ctx={kvS rest "ctx"} breach arbitrator: {res}"
+  | "watch" :: rest =>
+    let s := { s with evals := s.evals + 1, watched := s.watched + 1 }
+    -- (S) the real chain watcher, working on its own earlier copy of the channel, must
+    -- recognise the revoked state and hand a retribution to the breach arbitrator
+    if resOf ws == "ok" then return s
+    else monitor s "breach-recognised" s!"ctx={kvS rest "ctx"} stale_copy={kvS rest "stale"} copy_height={kvS rest "copyh"} final_height={kvS rest "finalh"} chain watcher: {resOf ws}"
   | "jmissing" :: _ => mismatch s s!"harness lost the revoked transaction: {line}"
   | "jsecond" :: _ => return s
   | "jin" :: rest =>
@@ -328,6 +337,7 @@ def main : IO Unit := do
   IO.println s!"STAT evaluations={s.evals}"
   IO.println s!"STAT nontrivial={s.spendsPos + s.spendsNeg + s.hints + s.revoked + s.brarInputs}"
   IO.println s!"STAT breach_arbitrator_inputs_executed={s.brarInputs}"
+  IO.println s!"STAT chain_watcher_stale_copy_spends={s.watched}"
   IO.println s!"STAT revoked_heights={s.revoked}"
   IO.println s!"STAT retributions={s.retrs}"
   IO.println s!"STAT outputs_checked={s.outs}"
